@@ -455,6 +455,7 @@ def run(P, R, L):
              "(otherwise the output overlaps a remaining parent-level file: the version builder's assertion kills the compaction thread)")
     K.pair9_boundary_inputs(P, R, L)
     K.pair9_levels(P, R, L)
+    K.bundle_no_assertion_trips(P, R, L)
     R.not_decided += ["that the background thread never panics (value-level reachability of unwrap/assert/index sites)",
                       "progress of data-dependent loops", "channel capacity / blocking send in schedule_task"]
     R.assumptions += ["one Mutex<GuardedDbFields> instance per database (class-level = instance-level)",
